@@ -1112,6 +1112,7 @@ package consensus
 //@   invariant loop#5 @c-nn4 sumRevC4(txn.FileContractRevisions, len(txn.FileContractRevisions)) >= 0
 //@   invariant loop#5 @c-revrh !overflow ==> revsRH(txn, len(txn.FileContractRevisions))
 //@   invariant loop#5 @nn5 sumResAll(txn.FileContractResolutions, $n) >= 0
+//@   invariant loop#5 @g7n sumRenewalCost(ms.base, txn.FileContractResolutions, $n) <= sumResAll(txn.FileContractResolutions, $n)
 //@   invariant loop#5 @g7 g7(ms.base, txn, $n)
 //@   invariant loop#5 @res !overflow ==> ressOK(txn, $n)
 //@   ensures @V3-output-prefixes result == nil ==> prefOK(txn.SiacoinOutputs, len(txn.SiacoinOutputs))
